@@ -5,23 +5,8 @@ Require Import Raft.Quorum Raft.QuorumProofs Raft.RaftModel Raft.RaftSys Raft.Ra
 Import ListNotations.
 
 Section ExtLemmas.
-  Variables c0 c1 : list nat.
-  Hypothesis Hcfg : c0 <> [] \/ c1 <> [].
-
-  Lemma Qr_witness : forall g p, Qr c0 c1 g -> ~ Qr c0 c1 p -> exists x, g x = true /\ p x = false.
-  Proof.
-    intros g p Hg Hn.
-    destruct (forallb (fun x => implb (g x) (p x)) (c0 ++ c1)) eqn:F.
-    - exfalso. apply Hn. rewrite forallb_forall in F. destruct Hg as [H0 H1]. split.
-      + eapply maj_sat_mono; [|exact H0]. intros x Hx Hgx.
-        specialize (F x (in_or_app _ _ _ (or_introl Hx))). rewrite Hgx in F. exact F.
-      + eapply maj_sat_mono; [|exact H1]. intros x Hx Hgx.
-        specialize (F x (in_or_app _ _ _ (or_intror Hx))). rewrite Hgx in F. exact F.
-    - clear - F. induction (c0 ++ c1) as [|y l IH]; [discriminate|].
-      cbn [forallb] in F. destruct (implb (g y) (p y)) eqn:E.
-      + apply IH. exact F.
-      + exists y. destruct (g y), (p y); try discriminate. split; reflexivity.
-  Qed.
+  Variable F : list (list nat * list nat).
+  Hypothesis HF : inter_family F.
 
   Lemma wf_ext : forall s s' l, ext s s' -> wf (LL s) l -> wf (LL s') l.
   Proof.
@@ -31,7 +16,7 @@ Section ExtLemmas.
   Qed.
 
   (* the ghost-only message invariants survive any extension of the history *)
-  Lemma iW9_ext : forall s s', ext s s' -> msgs s' = msgs s -> iW9 c0 c1 s -> iW9 c0 c1 s'.
+  Lemma iW9_ext : forall s s', ext s s' -> msgs s' = msgs s -> iW9 F s -> iW9 F s'.
   Proof.
     intros s s' E Hm H m Hin Hty. rewrite Hm in Hin.
     destruct (H m Hin Hty) as (H1 & H2 & H3 & H4 & H5).
@@ -39,10 +24,10 @@ Section ExtLemmas.
     split; [rewrite !(ext_LL_firstn s s' E) by lia; exact H2|].
     split; [pose proof (ext_LL_len s s' E (m_term m)); lia|].
     split; [rewrite (ext_LL_term_at s s' E) by lia; exact H4|].
-    apply (ext_CP c0 c1 s s' E). exact H5.
+    apply (ext_CP F s s' E). exact H5.
   Qed.
 
-  Lemma iW13_ext : forall s s', ext s s' -> msgs s' = msgs s -> iW13 c0 c1 s -> iW13 c0 c1 s'.
+  Lemma iW13_ext : forall s s', ext s s' -> msgs s' = msgs s -> iW13 F s -> iW13 F s'.
   Proof.
     intros s s' E Hm H m Hin Hty. rewrite Hm in Hin.
     destruct (H m Hin Hty) as (H1 & H2 & H3 & H4 & H5).
@@ -50,7 +35,7 @@ Section ExtLemmas.
     split; [rewrite (ext_LL_firstn s s' E) by lia; exact H2|].
     split; [pose proof (ext_LL_len s s' E (m_term m)); lia|].
     split; [rewrite (ext_LL_term_at s s' E) by lia; exact H4|].
-    apply (ext_CP c0 c1 s s' E). exact H5.
+    apply (ext_CP F s s' E). exact H5.
   Qed.
 
   Lemma iK4_ext : forall s s', ext s s' -> msgs s' = msgs s -> iK4 s -> iK4 s'.
@@ -59,10 +44,10 @@ Section ExtLemmas.
     pose proof (H m Hin Hty Hr). pose proof (e_ga _ _ E (m_from m) (m_term m)). lia.
   Qed.
 
-  Lemma iK10_ext : forall s s', ext s s' -> msgs s' = msgs s -> iK10 c0 c1 s -> iK10 c0 c1 s'.
+  Lemma iK10_ext : forall s s', ext s s' -> msgs s' = msgs s -> iK10 F s -> iK10 F s'.
   Proof.
     intros s s' E Hm H m Hin Hty. rewrite Hm in Hin. destruct (H m Hin Hty) as [H1 H2].
-    split; [pose proof (e_ga _ _ E (m_to m) (m_term m)); lia|apply (ext_CP c0 c1 s s' E); exact H2].
+    split; [pose proof (e_ga _ _ E (m_to m) (m_term m)); lia|apply (ext_CP F s s' E); exact H2].
   Qed.
 
   Lemma sorted_app_last : forall (l : elog) e,
